@@ -166,8 +166,14 @@ def real_invalid_trials(kind, obj, dump, plants):
         must("dump-valid-object", dump, dest)
         with open(dest, "rb") as fo:
             old = fo.read()
+        good = old
         for label, plant, restore in plants:
-            for existing in (True, False):
+            for existing in (True, False, "stream"):
+                old = good
+                if existing == "stream":
+                    # the caller hands over the destination file itself, opened for update (not truncated): the last good copy
+                    # is whatever the file holds
+                    old = b"# last good copy\n" + good
                 if existing:
                     with open(dest, "wb") as fo:
                         fo.write(old)
@@ -177,7 +183,11 @@ def real_invalid_trials(kind, obj, dump, plants):
                 raised = None
                 try:
                     try:
-                        dump(dest)
+                        if existing == "stream":
+                            with open(dest, "r+") as stream:
+                                dump(stream)
+                        else:
+                            dump(dest)
                     except (ValueError, TypeError) as exc:
                         raised = exc
                     except Exception as exc:  # noqa  (still a failed dump: the file must survive)
@@ -187,7 +197,7 @@ def real_invalid_trials(kind, obj, dump, plants):
                 trials += 1
                 if raised is None:
                     continue            # whether the value must be refused is C06's question, not this property's
-                where = "%s real invalid value %s (%s) %s" % (kind, label, type(raised).__name__, "existing" if existing else "absent")
+                where = "%s real invalid value %s (%s) %s" % (kind, label, type(raised).__name__, {True: "existing", False: "absent"}.get(existing, "existing, handed over as an open stream"))
                 if existing:
                     with open(dest, "rb") as fo:
                         now = fo.read()
@@ -195,7 +205,7 @@ def real_invalid_trials(kind, obj, dump, plants):
                 else:
                     check(not os.path.exists(dest), "file-created-by-failed-dump", "%s: a file was created" % where)
                 check(sorted(os.listdir(tmp)) == (["metadata"] if existing else []), "stray-file", "%s: %r" % (where, sorted(os.listdir(tmp))))
-                units.append("real:%s/%s" % (label, "e" if existing else "a"))
+                units.append("real:%s/%s" % (label, {True: "e", False: "a"}.get(existing, "s")))
     finally:
         shutil.rmtree(tmp, ignore_errors=True)
     return units, trials
